@@ -657,3 +657,70 @@ def rule_closure_state(rep: Report, repo: Repo):
         if key not in found:
             rep.note(f"closure-state table entry {key} no longer matches a write (stale entry)")
     rep.count("E4.closure_state_found", sorted(map(str, found)))
+
+
+# ---------------------------------------------------------------------------
+# value preservation: no lossy conversion of computed element values
+# ---------------------------------------------------------------------------
+
+CONST_CONSTRUCTORS = {"np.zeros", "np.ones", "np.eye", "np.empty", "np.identity", "np.arange", "np.full", "identity",
+                      "sparse.identity", "sparse.eye", "sparse.coo_array", "np.zeros_like", "np.ones_like", "sympy.zeros",
+                      "sympy.eye", "np.array", "super().__init__", "LinearOperator.__init__", "BlockSeries"}
+LOSSY = {"np.round", "np.around", "np.rint", "np.floor", "np.ceil", "np.trunc", "np.fix", "np.real", "np.imag", "np.clip",
+         "np.int64", "np.int32", "np.float32", "np.float16", "np.complex64", "np.nan_to_num", "np.real_if_close"}
+# (module, function qualname, construct text) -> reason
+LOSSY_EXEMPT = {
+    ("block_diagonalization", "block_diagonalize", "(np.abs(diagonal[i].reshape(-1, 1) - diagonal[i]) < atol).astype(int)"):
+        "boolean degeneracy mask turned into a 0/1 mask (exact)",
+    ("block_diagonalization", "block_diagonalize", "equal_eigs[block_idx].astype(int)"): "boolean mask to 0/1 (exact)",
+    ("linalg", "is_diagonal", "np.round(offdiagonal, int(-np.log10(atol)))"): "tolerance test of a predicate, not an element value",
+    ("linalg", "direct_greens_function.greens_function", "vec.real"): "real and imaginary parts are solved separately and recombined as re + i*im (E7.greens)",
+    ("linalg", "direct_greens_function.greens_function", "vec.imag"): "see vec.real",
+    ("block_diagonalization", "_group_close_energies", "energies.real"): "coordinates of complex energies for clustering",
+    ("block_diagonalization", "_group_close_energies", "energies.imag"): "coordinates of complex energies for clustering",
+}
+
+
+def rule_value_preserving(rep: Report, repo: Repo):
+    R = "E4.lossless"
+    n = 0
+    for mod in ("series", "algorithm_parsing", "block_diagonalization", "linalg", "second_quantization"):
+        tree = repo.trees[mod]
+        for node in ast.walk(tree):
+            what = None
+            if isinstance(node, ast.Call):
+                nm = call_name(node) or norm(node.func)
+                dt = [k for k in node.keywords if k.arg == "dtype"]
+                if dt and nm not in CONST_CONSTRUCTORS and norm(dt[0].value) != "object":
+                    what = f"`dtype=` conversion in `{norm(node)[:70]}`"
+                elif dt and nm == "np.array" and norm(dt[0].value) not in ("object", "int", "bool"):
+                    what = f"`dtype=` conversion in `{norm(node)[:70]}`"
+                elif isinstance(node.func, ast.Attribute) and node.func.attr in ("astype", "round", "view") and norm(node.func.value) not in MODULE_ALIASES:
+                    what = f"`.{node.func.attr}(...)`"
+                elif nm in LOSSY:
+                    what = f"`{nm}(...)`"
+            elif isinstance(node, ast.Attribute) and node.attr in ("real", "imag") and isinstance(node.ctx, ast.Load):
+                what = f"`.{node.attr}`"
+            if what is None:
+                continue
+            n += 1
+            # comparison result (boolean mask) turned into 0/1: exact
+            if isinstance(node, ast.Call) and isinstance(node.func, ast.Attribute) and node.func.attr == "astype" \
+                    and isinstance(node.func.value, (ast.Compare, ast.BoolOp)) and [norm(a) for a in node.args] in (["int"], ["bool"]):
+                rep.ok(R, f"{mod} boolean mask `{norm(node)[:60]}` converted to 0/1 (exact)", "", repo.loc(mod, node))
+                continue
+            f = node
+            while f is not None and not isinstance(f, (ast.FunctionDef, ast.Lambda)):
+                f = getattr(f, "_parent", None)
+            q = qualname(f) if f is not None else "<module>"
+            txt = norm(node)
+            key = (mod, q, txt)
+            if key in LOSSY_EXEMPT:
+                rep.ok(R, f"{mod}::{q} {what} `{txt[:60]}` (exempt)", LOSSY_EXEMPT[key], repo.loc(mod, node))
+            else:
+                rep.fail(R, f"{mod}::{q} applies {what} to a computed value: `{txt[:80]}`",
+                         "element values must be passed on as computed; a cast to the input's dtype, a rounding or a real-part "
+                         "projection silently changes results for integer / real inputs", repo.loc(mod, node))
+    rep.count("E4.lossless.sites", n)
+    if n == 0:
+        raise AnalysisError(R, "no conversion site found at all (the inventory above lists the known exact ones)")
